@@ -24,7 +24,7 @@ func init() {
 		Rules: []core.Rule{
 			{ID: "C08-R1", Title: "counter take and socket write in one critical section", Decides: "no frame counter emitted out of order", Floor: 2, Run: c08r1},
 			{ID: "C08-R2", Title: "nobody else takes the counter", Decides: "no frame counter reused or skipped by another path", Floor: 2, Run: c08r2},
-			{ID: "C08-R3", Title: "nobody else writes the raw socket", Decides: "every writer goes through the serialised path", Floor: 3, Run: func(c *core.Ctx) { c08r3(c); socketIsTheAcceptedOne(c) }},
+			{ID: "C08-R3", Title: "nobody else writes the raw socket", Decides: "every writer goes through the serialised path", Floor: 3, Run: func(c *core.Ctx) { c08r3(c); socketIsTheAcceptedOne(c); returnsUndecorated(c, "C08") }},
 			{ID: "C08-R4", Title: "one payload, one section", Decides: "each write's payload reaches the peer intact and contiguous", Floor: 1, Run: c08r4},
 			{ID: "C08-R5", Title: "no deadline set by library code; encrypter looked up inside the section", Decides: "an in-flight write is not truncated; queued writers seal with the current session", Floor: 2, Run: c08r5},
 		},
